@@ -37,6 +37,7 @@ enum NW { NPLAIN, NTAINTED, NVOL };
 static const char* nwname[] = { "plain", "tainted", "tainted_volatile" };
 
 static uint64_t n_exact = 0, n_abort = 0, n_nullabort = 0;
+static bool g_big = false;
 
 template<typename Cfg>
 struct Ctx
@@ -263,7 +264,7 @@ static void sweep_pointee(Ctx<Cfg>& c, mon::Rng& rng, bool exhaustive_range)
   for (uintptr_t p : bases)
     for (int op : { PREINC, POSTINC, PREDEC, POSTDEC }) judge_incdec<Cfg, T>(c, static_cast<OpK>(op), p);
 
-  if (exhaustive_range) {
+  if (exhaustive_range && !g_big) {
     // every n in [-(count)-8, count+8] from three bases, plain int64 index
     int64_t lim = static_cast<int64_t>(count) + 8;
     std::vector<uintptr_t> eb = { c.base, c.base + (count - 1) * s, c.base + (count / 3) * s };
@@ -328,6 +329,8 @@ int main(int argc, char** argv)
   mon::require("abort-expected-and-observed");
   mon::require("null-base-abort-observed");
   mon::Rng rng(mon::seed() + 5);
+  // "big": a 4 GiB region, so that element counts and byte offsets reach 2^31..2^32
+  if (argc > 1 && !strcmp(argv[1], "big")) { Ctx<CFG>::Wd::S::region_size = size_t(1) << 32; Ctx<CFG>::Wd::S::commit_size = size_t(1) << 20; g_big = true; mon::hit("four-gib-region-runs"); }
   run_cfg<CFG>(rng);
   mon::hit("exact-address-expected-and-observed", n_exact);
   mon::hit("abort-expected-and-observed", n_abort);
